@@ -26,6 +26,9 @@ M = [
     ('C15-o1', S + 'impls/types/files_matcher/models.py', "        return self._max_depth is not None and depth == self._max_depth", "        return self._max_depth is not None and depth + 1 == self._max_depth", ['C15']),
     ('C15-o2', S + 'impls/types/files_matcher/models.py', "        return self._min_depth is None or depth >= self._min_depth", "        return self._min_depth is None or depth > self._min_depth", ['C15']),
     ('C16-o1', S + 'test_suite/reporters/simple_progress_reporter.py', "                    FullExeResultStatus.XFAIL\n                    }", "                    FullExeResultStatus.XFAIL,\n                    FullExeResultStatus.XPASS,\n                    }", ['C16']),
+    ('C07-o1', S + 'section_document/parse_source.py', "            self._current_line_number += num_lines_consumed\n            self._current_line_text = first_line_split[0]", "            self._current_line_number += num_lines_consumed - (1 if num_lines_consumed > 2 else 0)\n            self._current_line_text = first_line_split[0]", ['C07']),
+    ('C10-o1', S + 'impls/actors/program/execution.py', "        stdin_parts = list(program_stdin)\n\n        if act_stdin:\n            stdin_parts.append(act_stdin)", "        stdin_parts = list(program_stdin)\n\n        if act_stdin:\n            stdin_parts.insert(0, act_stdin)", ['C10']),
+    ('C17-o1', S + 'test_suite/file_reading/suite_file_reading.py', "            cleanup_phase=append(test_case.cleanup_phase, test_suite.cleanup_phase),", "            cleanup_phase=append(test_suite.cleanup_phase, test_case.cleanup_phase),", ['C17']),
     ('C19-o1', S + 'util/process_execution/process_executor.py', "                timeout=settings.timeout_in_seconds,\n", "", ['C19', 'C11']),
 ]
 
